@@ -299,3 +299,13 @@ package dkg
 //@   props C14
 //@   flags lockcheck nopanic recovered
 //@   requires [C14] d.log != nil
+
+// ---- C15: the DKG database holds the key share of every finished epoch -------------------------------------
+//@ extern go.etcd.io/bbolt.Open(path, mode, options) (db, err)
+//@   trusted bbolt: creates the database file with the given mode (masked by umask)
+//@   modifies fexists(path), fmode(path), fcontent(path)
+//@   ensures err == nil ==> db != nil && fexists(path) && (!old(fexists(path)) ==> fmode(path) == newMode(mode))
+
+//@ func NewDKGStore(baseFolder) (s, err)
+//@   props C15
+//@   call Open#0: assert [C15:dkg-database-is-created-owner-only] arg1 % 64 == 0
